@@ -146,7 +146,7 @@ class Planner:
         cfg = self.cfg
         fp = FieldPlan()
         if tp.draw(8, "f_async") < cfg.async_num:
-            fp.delivery = ("future", "coro1", "coro2", "coro0", "future")[tp.draw(5, "f_kind")]
+            fp.delivery = ("future", "coro1", "coro2", "coro0", "settled")[tp.draw(5, "f_kind")]
             if tp.draw(8, "f_slowc") < cfg.slowc_num:
                 fp.delivery = "slowc"  # catches cancellation, awaits a cleanup external, re-raises
             self.n_async += 1
@@ -187,8 +187,11 @@ class Planner:
         if tp.draw(8, "i_async") < (cfg.async_num if cfg.focus == "seriality"
                                     else cfg.async_num // 2):
             ip.delivery = "future"
-            if tp.draw(8, "i_slowc") < cfg.slowc_num:
+            slowc = tp.draw(8, "i_slowc")
+            if slowc < cfg.slowc_num:
                 ip.delivery = "slowc"  # awaitable item whose cancellation takes time
+            elif slowc >= 6:
+                ip.delivery = "settled"  # a future that is already settled when handed over
             self.n_async += 1
         if tp.draw(32, "i_fault") < cfg.fault_num and cfg.focus != "seriality":
             inner = t.of_type if is_non_null_type(t) else t
